@@ -51,6 +51,7 @@ fn main() {
             "C02" => props::c02::replay(case),
             "C08" => props::c08::replay(case),
             "C09" => props::c09::replay(case),
+            "C10" => props::c10::replay(case),
             "C12" => props::c12::replay(case),
             "C13" => props::c13::replay(case),
             "C14" => props::c14::replay(case),
@@ -66,6 +67,7 @@ fn main() {
         "C02" => props::c02::run(tier),
         "C08" => props::c08::run(tier),
         "C09" => props::c09::run(tier),
+        "C10" => props::c10::run(tier),
         "C12" => props::c12::run(tier),
         "C13" => props::c13::run(tier),
         "C14" => props::c14::run(tier),
